@@ -389,6 +389,83 @@ Section BuildProofs.
           -- intros s Hs. apply Hfr, Hs.
   Qed.
 
+  (* ---- the construction terminates: enough fuel is one level per scale between max_scale and the floor ---- *)
+  Lemma filter_split_length {X} (f : X -> bool) (l : list X) :
+    length (filter f l) + length (filter (fun x => negb (f x)) l) = length l.
+  Proof. induction l as [|a l IH]; simpl; auto. destruct (f a); simpl; lia. Qed.
+
+  Definition rec_total (rec : nat -> list dset -> option (tree * list dset * list dset)) (ns : Z) : Prop :=
+    forall q nps, (forall s, In s nps -> last_ok q s) -> Inv ns nps -> exists r, rec q nps = Some r.
+
+  Lemma bi_loop_total rec fmax ns : rec_ok rec ns -> rec_total rec ns ->
+    ((slo - 1 <= ns)%Z \/ forall x, x <== fmax -> x <== dzero) ->
+    forall lf ps fr cs ch, length ps + length fr <= lf -> exists r, LOOP rec fmax lf ps fr cs ch = Some r.
+  Proof.
+    intros Hrec Htot HI. induction lf as [|lf IH]; intros ps fr cs ch Hlen;
+      rewrite bi_loop_eq; (destruct (unsnoc ps) as [[ps1 set]|] eqn:U; [|eexists; reflexivity]);
+      apply unsnoc_some in U; subst ps; rewrite app_length in Hlen; simpl in Hlen; [lia|].
+    cbn [dist_split].
+    set (q := fst set).
+    set (N1 := filter (near_of leb dpp fmax q) ps1).
+    set (N2 := filter (near_of leb dpp fmax q) fr).
+    set (ps2 := filter (fun s => negb (near_of leb dpp fmax q s)) ps1).
+    set (far2 := filter (fun s => negb (near_of leb dpp fmax q s)) fr).
+    match goal with |- context [map ?f N1] => set (push := f) end.
+    match goal with |- context [rec q ?X] => set (nps2 := X) end.
+    assert (Hnps2 : forall s, In s nps2 -> exists s0, s = push s0 /\ dpp q (fst s0) <== fmax).
+    { intros s Hs. unfold nps2 in Hs. simpl in Hs. apply in_app_or in Hs.
+      destruct Hs as [Hs|Hs]; apply in_map_iff in Hs; destruct Hs as (s0 & <- & H0);
+        apply filter_In in H0; destruct H0 as [H0 H1]; exists s0; auto. }
+    assert (Pre1 : forall s, In s nps2 -> last_ok q s).
+    { intros s Hs. destruct (Hnps2 s Hs) as (s0 & -> & _). reflexivity. }
+    assert (Pre2 : Inv ns nps2).
+    { destruct HI as [HI|HI]; [now left|right]. intros s Hs.
+      destruct (Hnps2 s Hs) as (s0 & -> & Hle). apply HI. exact Hle. }
+    destruct (Htot q nps2 Pre1 Pre2) as ([[child nps3] ncs] & ER). rewrite ER.
+    destruct (Hrec q nps2 _ ER Pre1 Pre2) as (newcr & _ & Pr & _).
+    apply IH. rewrite !app_length.
+    pose proof (filter_split_length (near fmax) (map ds_pop nps3)) as L1.
+    change (fun x : dset => negb (near fmax x)) with (far fmax) in L1.
+    pose proof (filter_split_length (near_of leb dpp fmax q) ps1) as L2. fold N1 ps2 in L2.
+    pose proof (filter_split_length (near_of leb dpp fmax q) fr) as L3. fold N2 far2 in L3.
+    apply Permutation_length in Pr. rewrite app_length in Pr.
+    assert (L4 : length nps2 = length N1 + length N2).
+    { unfold nps2. simpl. rewrite app_length, !map_length. reflexivity. }
+    rewrite map_length in L1. lia.
+  Qed.
+
+  Theorem bi_total : forall fuel p ms ts ps cs,
+    (forall s, In s ps -> last_ok p s) -> Inv ms ps -> Z.to_nat (ms - slo + 2) + 1 <= fuel ->
+    exists r, BI fuel p ms ts ps cs = Some r.
+  Proof.
+    induction fuel as [|f IHf]; intros p ms ts ps cs Hok I Hf; [lia|].
+    cbn [batch_insert]. destruct ps as [|s0 ps0].
+    - destruct ((ms =? ts)%Z && is_nil cs); eexists; reflexivity.
+    - remember (s0 :: ps0) as ps eqn:Eps.
+      set (ns := Z.min (Z.max (ms - 1) smin) (gscale (maxof ps))) in *.
+      destruct (ns =? smin)%Z eqn:Ens; [eexists; reflexivity|].
+      apply Z.eqb_neq in Ens. destruct (nonflat_inv ms ps Ens I) as [HI NZ]. fold ns in HI.
+      assert (Hms : (slo - 1 <= ms)%Z) by (destruct I as [I|I]; [exact I|contradiction]).
+      assert (Hns : (ns <= ms - 1)%Z) by (unfold ns; lia).
+      assert (Hf' : Z.to_nat (ns - slo + 2) + 1 <= f) by lia.
+      set (fmax := radius ms) in *.
+      set (nr := filter (near fmax) ps). set (fr := filter (far fmax) ps).
+      assert (Hnr : forall s, In s nr -> In s ps /\ last s <== fmax).
+      { intros s Hs. apply filter_In in Hs. exact Hs. }
+      assert (HInv : forall l : list dset, (forall s, In s l -> last s <== fmax) -> Inv ns l).
+      { intros l Hl. destruct HI as [HI|HI]; [now left|right]. intros s Hs. apply HI, Hl, Hs. }
+      assert (Pre1 : forall s, In s nr -> last_ok p s) by (intros s Hs; apply Hok, Hnr, Hs).
+      assert (Pre2 : Inv ns nr) by (apply HInv; intros s Hs; apply Hnr, Hs).
+      destruct (IHf p ns ts nr cs Pre1 Pre2 Hf') as ([[child ps1] cs1] & E1). rewrite E1.
+      destruct ps1 as [|d1 ps1']; [eexists; reflexivity|].
+      destruct (bi_loop_total (fun q nps => BI f q ns ts nps []) fmax ns) with
+          (lf := S (length (d1 :: ps1') + length fr)) (ps := d1 :: ps1') (fr := fr) (cs := cs1) (ch := [child])
+        as ([[fr' cs'] children] & EL); auto.
+      + intros q nps r Er Hq Iq. eapply bi_spec; eauto.
+      + intros q nps Hq Iq. apply IHf; auto.
+      + rewrite EL. eexists; reflexivity.
+  Qed.
+
   (* ---- the root call ---- *)
   (* the rounded logarithm is off by at most one step: when the cover radius of the scale it gives falls
      short of d, the next scale's radius reaches d.  With this the (repaired) get_scale satisfies
@@ -451,6 +528,26 @@ Section BuildProofs.
     destruct root as [i md [|c cs]]; auto.
     exfalso. apply Permutation_length in Lv'. rewrite seq_length in Lv'. simpl in Lv'. unfold n in Lv'. lia.
   Qed.
+  (* CoverTree::new succeeds on every non-empty data set: the model returns a tree as soon as the fuel covers
+     one level per scale between the root's scale and the floor *)
+  Theorem build_total fuel n : 1 <= n ->
+    Z.to_nat (gscale (initial_max ltb dmone dpp n) - slo + 2) + 1 <= fuel ->
+    exists t, cover_build ltb leb dzero dmone smin gsp radius dpp fuel n = Some t.
+  Proof.
+    intros Hn Hf. unfold cover_build. destruct n as [|m]; [lia|].
+    set (n := S m) in *. set (sc := gscale (initial_max ltb dmone dpp n)) in *.
+    assert (Hlast : forall s, In s (initial_sets dpp n) -> last_ok 0 s /\ 1 <= fst s < n).
+    { intros s Hs. apply in_map_iff in Hs. destruct Hs as (i & <- & Hi). apply in_seq in Hi.
+      split; [reflexivity|simpl; unfold n; lia]. }
+    assert (I0 : Inv sc (initial_sets dpp n)).
+    { destruct (leb (initial_max ltb dmone dpp n) dzero) eqn:Em.
+      - right. intros s Hs. destruct (Hlast s Hs) as [-> Hi].
+        eapply trans; [now apply initial_max_ge|exact Em].
+      - left. pose proof (gscale_lo _ Em). fold sc in H. lia. }
+    destruct (bi_total fuel 0 sc sc (initial_sets dpp n) []) as ([[root ps'] cs'] & E); auto.
+    - intros s Hs. apply Hlast, Hs.
+    - rewrite E. eexists; reflexivity.
+  Qed.
 End BuildProofs.
 
 (* what build_wf assumes of the two scale functions (rounded logarithm `gsp`, cover radius `radius`),
@@ -471,4 +568,18 @@ Theorem build_wf' {D} (ltb leb : D -> D -> bool) (dzero dmone : D) (PO : preorde
                    wf_root leb dpp n t = true.
 Proof.
   intros (H1 & H2 & H3 & H4) Hr fuel n t. exact (build_wf ltb leb dzero dmone PO smin gsp radius dpp slo H1 H2 H3 Hr H4 fuel n t).
+Qed.
+
+(* total correctness of the construction: with one unit of fuel per scale between the root's scale and the
+   floor, CoverTree::new returns a tree, and it is well formed *)
+Theorem build_total' {D} (ltb leb : D -> D -> bool) (dzero dmone : D) (PO : preorder ltb leb)
+        smin gsp radius slo (dpp : nat -> nat -> D) :
+  scale_ok ltb leb dzero smin gsp radius slo -> (forall i, leb (dpp i i) dzero = true) ->
+  forall fuel n, 1 <= n ->
+  Z.to_nat (get_scale ltb leb dzero smin gsp radius (initial_max ltb dmone dpp n) - slo + 2) + 1 <= fuel ->
+  exists t, cover_build ltb leb dzero dmone smin gsp radius dpp fuel n = Some t /\ wf_root leb dpp n t = true.
+Proof.
+  intros SC Hr fuel n Hn Hf. pose proof SC as (H1 & H2 & H3 & H4).
+  destruct (build_total ltb leb dzero dmone PO smin gsp radius dpp slo H1 H2 H3 Hr H4 fuel n Hn Hf) as (t & E).
+  exists t. split; auto. eapply (build_wf' ltb leb dzero dmone PO); eauto.
 Qed.
